@@ -177,11 +177,12 @@ class Check:
         st = self.stats
         viol = []
         seen = set()
+        tried = {}
         for v in st.violations:
             key = json.dumps(v['descriptor'], sort_keys=True)
-            if key in seen:
+            if key in seen or tried.get(key, 0) >= 4:
                 continue
-            seen.add(key)
+            tried[key] = tried.get(key, 0) + 1
             if confirm is not None:
                 ok = True
                 for _ in range(3):
@@ -195,6 +196,7 @@ class Check:
                 if not ok:
                     st.inconclusive += 1
                     continue
+            seen.add(key)
             viol.append(v)
         paths = []
         for v in viol:
